@@ -246,6 +246,36 @@ impl Sink {
         }
     }
 
+    /// register the publish-ack callback; every invocation is logged as `Ev::AckCb`
+    pub fn set_ack_cb(&self, app: &Rc<App>) {
+        let app = app.clone();
+        match self {
+            Sink::V3(s) => s.publish_ack_cb(move |pid, disconnected| {
+                app.log(Ev::AckCb { pid: pid.get(), disconnected });
+            }),
+            Sink::V5(s) => s.publish_ack_cb(move |ack, disconnected| {
+                app.log(Ev::AckCb { pid: ack.packet_id.get(), disconnected });
+            }),
+        }
+    }
+
+    /// non-blocking QoS 1 send (the result comes through the ack callback). The library
+    /// requires `is_ready()`; returns None when it is not.
+    pub fn send_qos1_noblock(&self, spec: &PubSpec) -> Option<SinkRes> {
+        if !self.is_ready() {
+            return None;
+        }
+        let payload = Bytes::copy_from_slice(&spec.payload);
+        let r = match self {
+            Sink::V3(s) => Self::pb3(s, spec).send_at_least_once_no_block(payload),
+            Sink::V5(s) => Self::pb5(s, spec).send_at_least_once_no_block(payload),
+        };
+        Some(match r {
+            Ok(()) => SinkRes::Ok,
+            Err(e) => err(e),
+        })
+    }
+
     /// the library future for a QoS 1 send (created now — eager parts run now)
     pub fn send_qos1(&self, spec: &PubSpec) -> BoxFut<SinkRes> {
         let payload = Bytes::copy_from_slice(&spec.payload);
